@@ -1,7 +1,5 @@
-(* C10, vacuum clause (c), part 2: the four identities that need the two O(r^2) differential equations.  The residuals of the
-   dense solve ("solve1_eq0", "solve1_eq1" of calculate_r2) are first shown to be odeE1, odeE2 over the object state (same
-   computation as props/C04.v); each identity is then  lhs - rhs = a * odeE1 + b * odeE2  with explicit multipliers a, b
-   (found with sympy), checked by [field] after the substitution chain. *)
+(* C10, vacuum clause (c), entries with the tangential field component, part b: G112 = G121 and G002 + G112 + G222 = 0.
+   Substitution chain (X2s, X2c, B20, G2, Z2*, sigma equation and its derivative) + field. *)
 From Coq Require Import Reals String List Lra Lia QArith Qreals FunctionalExtensionality.
 From QSC Require Import Expr Shallow.
 From QSCGen Require Import G_init_axis G_r1_diagnostics G_calculate_r2 G_residual G_calculate_grad_grad_B_tensor.
@@ -9,7 +7,7 @@ From QSCProps Require Import C10_spec C10_common C10_vacuum_common.
 Open Scope R_scope.
 Open Scope string_scope.
 
-Section Ode.
+Section Bt.
   Context {I : Type} (O : ops I) (HD : derivation O) (S VA V1 V2 : string -> I -> R).
   Hypothesis Hadm : admissible S.
   Hypothesis HA : stage O init_axis S VA.
@@ -95,7 +93,6 @@ Section Ode.
   Local Notation sigE := (C10_common.sigE S).
   Local Notation sigE2 := (C10_common.sigE2 S).
   Hypothesis Hvac : vacuum_hyp S.
-  Hypothesis Hode : r2_solved V2.
   Local Notation Dv_fold := (C10_vacuum_common.Dv_fold O HD S VA V1 V2 Hadm HA H1 H2 Hcst VR HR Hsig Hvac).
   Local Notation F_Z20 := (C10_vacuum_common.F_Z20 O HD S VA V1 V2 Hadm HA H1 H2 Hcst VR HR Hsig Hvac).
   Local Notation F_Z2s := (C10_vacuum_common.F_Z2s O HD S VA V1 V2 Hadm HA H1 H2 Hcst VR HR Hsig Hvac).
@@ -124,94 +121,10 @@ Section Ode.
     rewrite ?S_d2Y1c, ?S_dY1c, ?S_d2Y1s, ?S_dY1s, ?S_Y1s, ?S_dkap, ?S_kap, ?F_absG0, ?F_G0; rewrite ?F_I2, ?F_p2.
   Ltac vfin i := pose proof (adm_sG S Hadm i) as Es; pose proof (adm_spsi S Hadm i) as Ep; qsimp; field [Es Ep]; nz.
   Ltac vdirect i := vsub1; vsubX; vsub2 i; vfin i.
-  (* ---- the two O(r^2) differential equations (the residuals of the dense solve), over the object state ---- *)
-  Notation X20 := (S "s.X20"). Notation Y20 := (S "s.Y20"). Notation X2s := (S "s.X2s"). Notation X2c := (S "s.X2c").
-  Notation Y2s := (S "s.Y2s"). Notation Y2c := (S "s.Y2c"). Notation Z20 := (S "s.Z20"). Notation Z2s := (S "s.Z2s"). Notation Z2c := (S "s.Z2c").
-  Notation I2 := (S "s.I2"). Notation beta := (S "s.beta_1s").
-  Definition fX0_ (l : R) k := S "s.d_X20_d_varphi" k - tau k * l * Y20 k + kap k * l * Z20 k
-      - 4 * sG k * spsi k * l * (Y2c k * Z2s k - Y2s k * Z2c k)
-      - spsi k * (I2 k / B0 k) * (kap k * sG k * spsi k / 2 - 2 * Y20 k) * l + l * beta k * Y1c k / 2.
-  Definition fXs_ (l : R) k := S "s.d_X2s_d_varphi" k - 2 * iotaN k * X2c k - tau k * l * Y2s k + kap k * l * Z2s k
-      - 4 * spsi k * sG k * l * (Y2c k * Z20 k - Y20 k * Z2c k)
-      - spsi k * (I2 k / B0 k) * (kap k * spsi k * sG k / 2 - 2 * Y2s k) * l - l * beta k * Y1s k / 2.
-  Definition fXc_ (l : R) k := S "s.d_X2c_d_varphi" k + 2 * iotaN k * X2s k - tau k * l * Y2c k + kap k * l * Z2c k
-      - 4 * spsi k * sG k * l * (Y20 k * Z2s k - Y2s k * Z20 k)
-      - spsi k * (I2 k / B0 k) * (kap k * sG k * spsi k / 2 - 2 * Y2c k) * l - l * beta k * Y1c k / 2.
-  Definition fY0_ (l : R) k := S "s.d_Y20_d_varphi" k + tau k * l * X20 k
-      - 4 * spsi k * sG k * l * (X2s k * Z2c k - X2c k * Z2s k)
-      - spsi k * (I2 k / B0 k) * (- kap k * X1c k * X1c k / 2 + 2 * X20 k) * l - l * beta k * X1c k / 2.
-  Definition fYs_ (l : R) k := S "s.d_Y2s_d_varphi" k - 2 * iotaN k * Y2c k + tau k * l * X2s k
-      - 4 * spsi k * sG k * l * (X20 k * Z2c k - X2c k * Z20 k)
-      - 2 * spsi k * (I2 k / B0 k) * X2s k * l.
-  Definition fYc_ (l : R) k := S "s.d_Y2c_d_varphi" k + 2 * iotaN k * Y2s k + tau k * l * X2c k
-      - 4 * spsi k * sG k * l * (X2s k * Z20 k - X20 k * Z2s k)
-      - spsi k * (I2 k / B0 k) * (- kap k * X1c k * X1c k / 2 + 2 * X2c k) * l + l * beta k * X1c k / 2.
-  Definition odeE1 l k := X1c k * fXs_ l k - Y1s k * fY0_ l k + Y1c k * fYs_ l k - Y1s k * fYc_ l k.
-  Definition odeE2 l k := - X1c k * fX0_ l k + X1c k * fXc_ l k - Y1c k * fY0_ l k + Y1s k * fYs_ l k + Y1c k * fYc_ l k.
-  Ltac to_model H :=
-    repeat match goal with
-           | |- context [S (String ?a ?b)] => rewrite <- (st_agree _ _ _ _ H (String a b) eq_refl)
-           end.
-  Ltac ode_prep P H eqn :=
-    unfold odeE1, odeE2, fX0_, fXs_, fXc_, fY0_, fYs_, fYc_; to_model H;
-    unfold_fixes O P (st_fix _ _ _ _ H)
-      (eqn :: "s.d_X20_d_varphi" :: "s.d_X2s_d_varphi" :: "s.d_X2c_d_varphi" :: "s.d_Y20_d_varphi" :: "s.d_Y2s_d_varphi" :: "s.d_Y2c_d_varphi"
-       :: "fX0_from_X20" :: "fX0_from_Y20" :: "fX0_inhomogeneous"
-       :: "fXs_from_X20" :: "fXs_from_Y20" :: "fXs_inhomogeneous"
-       :: "fXc_from_X20" :: "fXc_from_Y20" :: "fXc_inhomogeneous"
-       :: "fY0_from_X20" :: "fY0_from_Y20" :: "fY0_inhomogeneous"
-       :: "fYs_from_X20" :: "fYs_from_Y20" :: "fYs_inhomogeneous"
-       :: "fYc_from_X20" :: "fYc_from_Y20" :: "fYc_inhomogeneous"
-       :: "s.X20" :: "X20" :: "s.Y20" :: "Y20" :: "s.Y2s" :: "Y2s" :: "s.Y2c" :: "Y2c" :: "X20" :: "Y20"
-       :: "s.X2s" :: "s.X2c" :: "s.Z20" :: "s.Z2s" :: "s.Z2c" :: "s.beta_1s"
-       :: "X1c" :: "Y1s" :: "Y1c" :: "torsion" :: "curvature" :: "iota_N" :: "spsi" :: "sG"
-       :: "I2_over_B0" :: "abs_G0_over_B0" :: "B0_over_abs_G0" :: nil)%list;
-    rewrite !(D_add O (der_lin O HD)); qsimp; unfold Rdiv; ring.
-  Lemma R_ode1' k : odeE1 (/ (B0 k / Rabs (S "s.G0" k))) k = 0.
-  Proof. destruct Hode as [Ho1 Ho2]. both ltac:(fun P H => rewrite <- (Ho1 k); symmetry; ode_prep P H "solve1_eq0"). Qed.
-  Lemma R_ode2' k : odeE2 (/ (B0 k / Rabs (S "s.G0" k))) k = 0.
-  Proof. destruct Hode as [Ho1 Ho2]. both ltac:(fun P H => rewrite <- (Ho2 k); symmetry; ode_prep P H "solve1_eq1"). Qed.
-  Lemma lp_is_aGB k : / (B0 k / Rabs (S "s.G0" k)) = aGB k.
-  Proof. rewrite F_absG0. field. nz. Qed.
-  Lemma R_ode1 k : odeE1 (aGB k) k = 0.
-  Proof. rewrite <- lp_is_aGB. apply R_ode1'. Qed.
-  Lemma R_ode2 k : odeE2 (aGB k) k = 0.
-  Proof. rewrite <- lp_is_aGB. apply R_ode2'. Qed.
-  Lemma F_beta k : beta k = 0.
-  Proof.
-    both ltac:(fun P H => rewrite <- (st_agree _ _ _ _ H "s.beta_1s" eq_refl);
-      unfold_fixes O P (st_fix _ _ _ _ H) ("s.beta_1s" :: "beta_1s" :: "p2" :: nil)%list; to_state H; rewrite F_p2; unfold Rdiv; ring).
-  Qed.
-  (* ---- identities that need the differential equations: certificates lhs - rhs = a * ode1 + b * ode2 ---- *)
-  Ltac vcert i a b :=
-    apply Rminus_diag_uniq;
-    match goal with |- ?D = 0 => replace D with (a * odeE1 (aGB i) i + b * odeE2 (aGB i) i) end;
-    [ rewrite R_ode1, R_ode2; ring
-    | unfold odeE1, odeE2, fX0_, fXs_, fXc_, fY0_, fYs_, fYc_; rewrite ?F_beta; vsub1; vsub2 i; vfin i ].
-  Lemma vs_001 : forall i, S "s.grad_grad_B_0_0_1" i = S "s.grad_grad_B_0_1_0" i.
-  Proof.
-    intros i; gg_entry "s.grad_grad_B_0_0_1" "grad_grad_B_0_0_1#2"; gg_entry "s.grad_grad_B_0_1_0" "grad_grad_B_0_1_0#2"; gg_locals; to_state HG.
-    vcert i (- 2 * B0 i * spsi i / (X1c i * aGB i)) (- 2 * B0 i * sG i * Y1c i / aGB i).
-  Qed.
-  Lemma vs_101 : forall i, S "s.grad_grad_B_1_0_1" i = S "s.grad_grad_B_1_1_0" i.
-  Proof.
-    intros i; gg_entry "s.grad_grad_B_1_0_1" "grad_grad_B_1_0_1#2"; gg_entry "s.grad_grad_B_1_1_0" "grad_grad_B_1_1_0#2"; gg_locals; to_state HG.
-    vcert i 0 (2 * B0 i * X1c i * sG i / aGB i).
-  Qed.
-  Lemma vh_0 : forall i, S "s.grad_grad_B_0_0_0" i + S "s.grad_grad_B_1_1_0" i + S "s.grad_grad_B_2_2_0" i = 0.
-  Proof.
-    intros i; gg_entry "s.grad_grad_B_0_0_0" "grad_grad_B_0_0_0#2"; gg_entry "s.grad_grad_B_1_1_0" "grad_grad_B_1_1_0#2"; gg_entry "s.grad_grad_B_2_2_0" "grad_grad_B_2_2_0#2"; gg_locals; to_state HG.
-    rewrite <- (Rminus_0_r (_ + _ + _)).
-    vcert i 0 (- 2 * B0 i * X1c i * sG i / aGB i).
-  Qed.
-  Lemma vh_1 : forall i, S "s.grad_grad_B_0_0_1" i + S "s.grad_grad_B_1_1_1" i + S "s.grad_grad_B_2_2_1" i = 0.
-  Proof.
-    intros i; gg_entry "s.grad_grad_B_0_0_1" "grad_grad_B_0_0_1#2"; gg_entry "s.grad_grad_B_1_1_1" "grad_grad_B_1_1_1#2"; gg_entry "s.grad_grad_B_2_2_1" "grad_grad_B_2_2_1#2"; gg_locals; to_state HG.
-    rewrite <- (Rminus_0_r (_ + _ + _)).
-    vcert i (- 2 * B0 i * spsi i / (X1c i * aGB i)) (- 2 * B0 i * sG i * Y1c i / aGB i).
-  Qed.
-  Theorem C10_vacuum_ode : vacuum_ode_part S.
-  Proof. intros i. unfold G. repeat split; [apply vs_001|apply vs_101|apply vh_0|apply vh_1]. Qed.
-End Ode.
-Check C10_vacuum_ode.
-Print Assumptions C10_vacuum_ode.
+  Lemma vs_112 : forall i, S "s.grad_grad_B_1_1_2" i = S "s.grad_grad_B_1_2_1" i.
+  Proof. intros i; gg_entry "s.grad_grad_B_1_1_2" "grad_grad_B_1_1_2#2"; gg_entry "s.grad_grad_B_1_2_1" "grad_grad_B_1_2_1#2"; gg_locals; to_state HG. vdirect i. Qed.
+  Lemma vh_2 : forall i, S "s.grad_grad_B_0_0_2" i + S "s.grad_grad_B_1_1_2" i + S "s.grad_grad_B_2_2_2" i = 0.
+  Proof. intros i; gg_entry "s.grad_grad_B_0_0_2" "grad_grad_B_0_0_2#2"; gg_entry "s.grad_grad_B_1_1_2" "grad_grad_B_1_1_2#2"; gg_entry "s.grad_grad_B_2_2_2" "grad_grad_B_2_2_2#2"; gg_locals; to_state HG. vdirect i. Qed.
+  Theorem C10_vacuum_Bt_b : vacuum_Bt_b S.
+  Proof. intros i. unfold G. split; [apply vs_112|apply vh_2]. Qed.
+End Bt.
